@@ -5,7 +5,7 @@ import random
 LETTERS = ['a', 'b', 'c']
 WIDE = ['é', '€', '😀']          # 2, 3 and 4 bytes in UTF-8
 # characters at the boundaries of the UTF-8 length classes and of ASCII, controls
-BOUNDARY = ['\x7f', '\x01', '\x7e', '\u0080', '\u07ff', '\u0800', '\uffff', '\U00010000', '\U0010ffff', '\t', '\r']
+BOUNDARY = ['\x7f', '\x01', '\x7e', '\u0080', '\u07ff', '\u0800', '\uffff', '\U00010000', '\U0010ffff', '\t', '\r', '\x00', '\x00']
 OTHER = ['\n', ' ', '-', 'x', '0', '_']
 META = set('\\.+*?()|[]{}^$#&-~')
 
@@ -289,15 +289,21 @@ def gen_small_la(rng, alpha=('a', 'b', 'c')):
     if NULLABLE_LA and rng.random() < 0.3:
         return rng.choice([a() + '*', a() + '?', '(' + a() + '|' + a() + ')*', '(' + a() + a() + ')*', a() + '*(' + a() + a() + ')?', '',
                            a() + '{0}', '(' + a() + '?)*'])
-    if r < 0.4:
+    if r < 0.3:
         return a()
-    if r < 0.6:
+    if r < 0.45:
         return a() + a()
-    if r < 0.8:
+    if r < 0.6:
         return a() + '+'
-    if r < 0.9:
+    if r < 0.7:
         return '[' + ''.join(esc_cls(c) for c in rng.sample(list(alpha), 2)) + ']'
-    return a() + a() + '*'
+    if r < 0.8:
+        return a() + a() + '*'
+    # the whole lookahead text matters, not its first character: an optional or repeated head before a required tail,
+    # alternatives of different lengths
+    x, y = a(), a()
+    return rng.choice([x + '*' + y, x + '+' + y, x + '?' + y, '[' + esc_cls(rng.choice(alpha)) + esc_cls(rng.choice(alpha)) + ']*' + y,
+                       '(' + x + y + ')*' + y, x + '(' + y + '|' + x + x + ')', '(' + x + '|' + y + x + ')' + y])
 
 
 def gen_small_mode(rng, name, alpha, npat, la_prob, min_la=0):
